@@ -207,6 +207,7 @@ type ssIn struct {
 	Updated      int           `json:"updated"`      // status.canaryStatus.updatedReplicas of the release
 	NoNeedUpdate *int          `json:"noNeedUpdate"` // status.canaryStatus.noNeedUpdateReplicas
 	Matched      bool          `json:"matched"`      // a Rollout references the workload
+	Stray        bool          `json:"stray,omitempty"` // a selected pod whose controller owner does not exist any more is in the cluster
 	Pods         int           `json:"pods"`         // ready pods of the update revision owned by the workload (never touched: rollout-id is empty)
 	Steps        []ssStep      `json:"steps"`
 }
@@ -623,6 +624,17 @@ func ssRollout(kind string) *v1beta1.Rollout {
 	return ro
 }
 
+// ssStrayPod: a pod the workload's selector matches but that belongs to somebody else — its controller owner is a
+// ReplicaSet that no longer exists (deleted, the pod is waiting for the garbage collector).  `util.IsOwnedBy` ignores the
+// NotFound of the owner lookup: the pod is simply not the workload's.  It changes nothing the control plane does.
+func ssStrayPod() *corev1.Pod {
+	p := ssPod(0)
+	p.Name = "stray-0"
+	t := true
+	p.OwnerReferences = []metav1.OwnerReference{{APIVersion: "apps/v1", Kind: "ReplicaSet", Name: "ghost", UID: "ghost-uid", Controller: &t}}
+	return p
+}
+
 func ssPod(i int) *corev1.Pod {
 	p := &corev1.Pod{}
 	p.Namespace, p.Name = "ns", fmt.Sprintf("wl-%d", i)
@@ -638,7 +650,17 @@ func ssPod(i int) *corev1.Pod {
 // ssPodsUntouched: the pods are as they were created
 func ssPodsUntouched(base client.Client, n int) bool {
 	l := &corev1.PodList{}
-	if err := base.List(context.TODO(), l, client.InNamespace("ns")); err != nil || len(l.Items) != n {
+	if err := base.List(context.TODO(), l, client.InNamespace("ns")); err != nil {
+		return false
+	}
+	kept := l.Items[:0]
+	for _, it := range l.Items {
+		if !strings.HasPrefix(it.Name, "stray-") {
+			kept = append(kept, it)
+		}
+	}
+	l.Items = kept
+	if len(l.Items) != n {
 		return false
 	}
 	for i := range l.Items {
@@ -856,6 +878,9 @@ func ssRun(in *ssIn) interface{} {
 	for i := 0; i < in.Pods; i++ {
 		objs = append(objs, ssPod(i))
 	}
+	if in.Stray {
+		objs = append(objs, ssStrayPod())
+	}
 	base := fakeClient(objs...)
 	outs := []interface{}{}
 	for _, st := range in.Steps {
@@ -1054,7 +1079,7 @@ func ssLifeCycle(c *Ctx) *ssIn {
 		}
 	}
 	in := &ssIn{Wl: w, Batches: ssBatches(c, R), RollbackAnno: c.Rng.Intn(10) == 0, Updated: c.Rng.Intn(R + 1),
-		NoNeedUpdate: ssNoNeed(c, R, 12), Matched: c.Rng.Intn(8) != 0, Pods: []int{0, 0, 1, 3}[c.Rng.Intn(4)]}
+		NoNeedUpdate: ssNoNeed(c, R, 12), Matched: c.Rng.Intn(8) != 0, Pods: []int{0, 0, 1, 3}[c.Rng.Intn(4)], Stray: c.Rng.Intn(4) == 0}
 	nb := len(in.Batches)
 	tm := 1
 	batch := 0
@@ -1180,7 +1205,7 @@ func ssAnyWalk(c *Ctx) *ssIn {
 		R = *w.Replicas
 	}
 	in := &ssIn{Wl: w, Batches: ssBatches(c, R), RollbackAnno: c.Rng.Intn(5) == 0, Updated: c.Rng.Intn(R + 1),
-		NoNeedUpdate: ssNoNeed(c, R, 25), Matched: c.Rng.Intn(4) != 0, Pods: []int{0, 0, 2}[c.Rng.Intn(3)]}
+		NoNeedUpdate: ssNoNeed(c, R, 25), Matched: c.Rng.Intn(4) != 0, Pods: []int{0, 0, 2}[c.Rng.Intn(3)], Stray: c.Rng.Intn(4) == 0}
 	if c.Rng.Intn(25) == 0 {
 		in.Wl = nil
 	}
